@@ -314,7 +314,10 @@ HeapBound(E, ty, pos, depth) ==
   LET ms == MaxSz(E, ty, 2)
       A == 8 * (ms + 64)
       node == 16 * ms + 256
-  IN A * (pos + 1) + (Allowance + node) * (depth + 1)
+      \* (saturating: TLC integers are 32-bit and a 20000-byte array element at position 20000 is already beyond them)
+      lin == IF A > Huge \div (pos + 1) THEN Huge ELSE A * (pos + 1)
+      lvl == IF Allowance + node > Huge \div (depth + 1) THEN Huge ELSE (Allowance + node) * (depth + 1)
+  IN IF lin >= Huge - lvl THEN Huge ELSE lin + lvl
 HeapOK(r) ==
   /\ r.res \in {"ok", "err"}                       \* an error or a small value, never a crash
   /\ r.n <= r.len
